@@ -22,8 +22,8 @@ META = dict(
     level="fault_enumeration",
     design_ref="DESIGN.md §5 C38",
     technique="failpoint census + one injected exception per failpoint, subprocess per injection; independent tar/lz4/npy reader decides the state of the target path; fault-free rerun on the same path",
-    level_text="Every failpoint hit observed in the census of a real small solve, of a user-written creating session and of an edit session is failed once (exception raised before the primitive; additionally a half-completed write for every write into the archive); exhaustive over the censused single faults. Thorough adds exception-after-the-call, KeyboardInterrupt, half-completed writes everywhere, two faults in one run and a second fault during the retry (ordered pairs up to equivalence of the on-disk state left by the first fault).",
-    level_note="Trusted base: the failpoint list (Path.write_text/write_bytes/unlink/mkdir/rmdir/rename/replace/touch, open(w)+file.write incl. tarfile's, np.save/savez, lz4.frame.compress, yaml.dump*, TarFile.add/addfile/extractall, shutil.rmtree/copytree/move/copy*, tempfile.mkdtemp/mkstemp, os.replace/rename/remove, parts.evolve/match, operators.join/retrieve, recipes.create, user code); failures of primitives not in this list (e.g. os.mkdir inside mkdtemp, power loss between syscalls, fsync) are not modelled. A complete archive equal to the fault-free result is accepted when the fault hit after the archive was committed (e.g. in the final removal of the temporary directory).",
+    level_text="Every failpoint hit observed in the census of a real small solve, of a user-written creating session and of an edit session is failed once (exception raised before the primitive; additionally a half-completed write for every write into the archive and a failure right after every truncating open in the archive's directory); exhaustive over the censused single faults. Thorough adds exception-after-the-call, KeyboardInterrupt, half-completed writes everywhere, two faults in one run and a second fault during the retry (ordered pairs up to equivalence of the on-disk state left by the first fault).",
+    level_note="Trusted base: the failpoint list (Path.write_text/write_bytes/unlink/mkdir/rmdir/rename/replace/touch, open(w)+file.write incl. tarfile's, np.save/savez, lz4.frame.compress, yaml.dump*, TarFile.add/addfile/extractall, shutil.rmtree/copytree/move/copy*, tempfile.mkdtemp/mkstemp, os.replace/rename/remove/sendfile, parts.evolve/match, operators.join/retrieve, recipes.create, user code); failures of primitives not in this list (e.g. os.mkdir inside mkdtemp, power loss between syscalls, fsync) are not modelled. A complete archive equal to the fault-free result is accepted when the fault hit after the archive was committed (e.g. in the final removal of the temporary directory).",
     rule="case = (workload, failpoint ordinal, mode before/partial/after, kind error/interrupt[, second fault]); distinct by that tuple; non-trivial = the injected fault fired at the censused site and the run terminated with an exception",
     min_nontrivial=100,
     required_hits=["state_checked_after_fault", "rerun_checked"],
@@ -329,6 +329,9 @@ def _run(ck, root):
             into_archive = h["caller"].endswith("EKO.dump") or h["detail"].startswith("<OUT>")
             if h["site"] in WRITE_SITES and (into_archive or ck.thorough):
                 variants.append(("partial", "error"))
+            if h["site"] == "open(w)" and into_archive and not ck.thorough:
+                # opening for writing truncates: a failure right after it (thorough does this everywhere)
+                variants.append(("after", "error"))
             if ck.thorough:
                 variants.append(("before", "interrupt"))
                 if h["site"] not in COMMIT_SITES:
